@@ -172,6 +172,18 @@ func (z *ScriptedPeer) attach(t *gateway.Transport, conn net.Conn) {
 	go z.serve(t)
 }
 
+// WaitConnected waits until the handshake has completed on the scripted peer's side.
+func (z *ScriptedPeer) WaitConnected(max time.Duration) bool {
+	end := time.Now().Add(max)
+	for time.Now().Before(end) {
+		if z.Connected() {
+			return true
+		}
+		time.Sleep(5 * time.Millisecond)
+	}
+	return false
+}
+
 // Connected reports whether the transport to the victim is still up (the last accept loop runs).
 func (z *ScriptedPeer) Connected() bool {
 	z.mu.Lock()
@@ -700,18 +712,24 @@ func (z *ScriptedPeer) callRaw(id, body gateway.Object, timeout time.Duration) e
 
 func (z *ScriptedPeer) RelayHeader(bh types.BlockHeader, kind string) error {
 	err := z.call(&gateway.RPCRelayV2Header{Header: bh}, 3*time.Second)
-	z.note("RelayV2Header", kind, z.W.Name(bh.ID()))
+	if err == nil {
+		z.note("RelayV2Header", kind, z.W.Name(bh.ID()))
+	}
 	return err
 }
 
 func (z *ScriptedPeer) RelayOutline(o gateway.V2BlockOutline, kind string) error {
 	err := z.call(&gateway.RPCRelayV2BlockOutline{Block: o}, 3*time.Second)
-	z.note("RelayV2BlockOutline", kind, fmt.Sprintf("height %d", o.Height))
+	if err == nil {
+		z.note("RelayV2BlockOutline", kind, fmt.Sprintf("height %d", o.Height))
+	}
 	return err
 }
 
 func (z *ScriptedPeer) RelayTxSet(index types.ChainIndex, txns []types.V2Transaction, kind string) error {
 	err := z.call(&gateway.RPCRelayV2TransactionSet{Index: index, Transactions: txns}, 3*time.Second)
-	z.note("RelayV2TransactionSet", kind, fmt.Sprintf("%d txns", len(txns)))
+	if err == nil {
+		z.note("RelayV2TransactionSet", kind, fmt.Sprintf("%d txns", len(txns)))
+	}
 	return err
 }
